@@ -247,6 +247,8 @@ class QapWorld:
                 _r.SystemRandom = real_sr
             self.boolean = importlib.import_module("pysnark.boolean")
             self.branching = importlib.import_module("pysnark.branching")
+            self.fixedpoint = importlib.import_module("pysnark.fixedpoint")
+            self.fixedpoint.resolution = 2
         finally:
             atexit.register = real_register
             sys.exit, sys.excepthook = saved
